@@ -208,7 +208,18 @@ def run(ctx) -> None:
     ctx.visit(pk.fq)
     sup = prog.const("config", "SUPPORTED_CONFIGS")
     cands = shapes.single_def(pk, "config_candidates")
-    ctx.require(isinstance(cands, ast.List), "_pick_config_filepath: candidate list not a list display")
+    ctx.require(cands is not None, "_pick_config_filepath: candidate list not found")
+    if not isinstance(cands, ast.List):
+        # a comprehension / concatenation over constant names: fold it with the directory as a symbol
+        class _Dir:
+            def __sym_div__(self, other: T.Any) -> str:
+                return f"<dir>/{other}"
+        try:
+            folded = prog.fold(pk.module, cands, {pk.params[0]: _Dir()})
+        except AnalysisError as ex_:
+            raise AnalysisError(f"C19: _pick_config_filepath: candidate list not foldable: {ex_}")
+        ctx.require(isinstance(folded, list) and all(isinstance(x_, str) and x_.startswith("<dir>/") for x_ in folded), "_pick_config_filepath: candidates are not <dir>/<name>")
+        cands = ast.List(elts=[ast.BinOp(left=ast.Name(id=pk.params[0], ctx=ast.Load()), op=ast.Div(), right=ast.Constant(value=x_[6:])) for x_ in folded], ctx=ast.Load())
     names = []
     for e in cands.elts:
         ctx.require(isinstance(e, ast.BinOp) and isinstance(e.op, ast.Div) and unparse(e.left) == pk.params[0] and const_str(e.right), "candidate shape not enumerated")
@@ -307,7 +318,7 @@ def run(ctx) -> None:
     # fallback when no config file exists: the self snippet of the file that will be created
     dg = cfgs.get(dc.fq)
     dpc = PathCond(dg)
-    hc = shapes.single_def(dc, "has_config_file")
+    hc = shapes.single_def(dc, "has_config_file") or shapes.any_loop(dc, "has_config_file")
     ok_hc = hc is not None and isinstance(hc, ast.Call) and unparse(hc.func) == "any" and "SUPPORTED_CONFIGS" in unparse(hc) and ".exists()" in unparse(hc)
     ctx.check("R4", ok_hc, "default_config: has_config_file = any candidate of SUPPORTED_CONFIGS exists", "config.default_config: detection of an existing config file changed", unparse(hc) if hc is not None else "", loc=dc.loc())
     adds = {}
